@@ -72,6 +72,54 @@ pub fn nest_unprotected_countersig_array(d: usize, innermost: &[u8]) -> Vec<u8> 
     out
 }
 
+/// Zig-zag through the counter-signature cycle: each level is one hop, outermost first.
+/// Hop 0 = counter signature in the unprotected header, 1 = in the protected bstr,
+/// 2 = unprotected, array form, 3 = protected, array form.  Returns a COSE_Signature.
+pub fn nest_zigzag(hops: &[u8], innermost: &[u8]) -> Vec<u8> {
+    let d = hops.len();
+    // lengths inside-out: lens[d] = innermost, lens[i] = length of the signature at level i
+    let mut lens = vec![0usize; d + 1];
+    lens[d] = innermost.len();
+    for i in (0..d).rev() {
+        let inner = lens[i + 1];
+        lens[i] = match hops[i] {
+            0 => 4 + inner + 1,
+            1 => 1 + head(2, (inner + 2) as u64).len() + 2 + inner + 2,
+            2 => 5 + inner + 4 + 1,
+            _ => 1 + head(2, (inner + 7) as u64).len() + 3 + inner + 4 + 2,
+        };
+    }
+    let mut out = Vec::with_capacity(lens[0]);
+    for i in 0..d {
+        let inner = lens[i + 1];
+        match hops[i] {
+            0 => out.extend([0x83, 0x40, 0xa1, 0x07]),
+            1 => {
+                out.push(0x83);
+                out.extend(head(2, (inner + 2) as u64));
+                out.extend([0xa1, 0x07]);
+            }
+            2 => out.extend([0x83, 0x40, 0xa1, 0x07, 0x82]),
+            _ => {
+                out.push(0x83);
+                out.extend(head(2, (inner + 7) as u64));
+                out.extend([0xa1, 0x07, 0x82]);
+            }
+        }
+    }
+    out.extend_from_slice(innermost);
+    for i in (0..d).rev() {
+        match hops[i] {
+            0 => out.push(0x40),
+            1 => out.extend([0xa0, 0x40]),
+            2 => out.extend([0x83, 0x40, 0xa0, 0x40, 0x40]),
+            _ => out.extend([0x83, 0x40, 0xa0, 0x40, 0xa0, 0x40]),
+        }
+    }
+    debug_assert_eq!(out.len(), lens[0]);
+    out
+}
+
 /// Axis C: recipient in recipient, d levels.  Returns a COSE_recipient.
 pub fn nest_recipients(d: usize, innermost: &[u8]) -> Vec<u8> {
     let mut out = Vec::new();
@@ -162,6 +210,7 @@ pub const NEST_KINDS: &[&str] = &[
     "nest(mixture)",
     "nest(kdf-supp-protected)",
     "nest(wide-siblings)",
+    "nest(zigzag-countersig)",
 ];
 
 /// Wrap a COSE_Signature as a counter-signature in a header map.
@@ -283,6 +332,93 @@ fn carry_value(rng: &mut Rng, val: &[u8]) -> (Vec<u8>, &'static str) {
     }
 }
 
+
+/// Wide rather than deep: n siblings (signers, recipients, keys, extra parameters, critical
+/// labels, counter signatures, supplementary strings, claims).  `full` fills the whole size cap.
+pub fn gen_wide(rng: &mut Rng, cap: usize, full: bool) -> (Vec<u8>, &'static str) {
+    let sig0: &[u8] = &[0x83, 0x40, 0xa0, 0x40];
+    let rcpt0: &[u8] = &[0x83, 0x40, 0xa0, 0xf6];
+
+            // wide rather than deep: many siblings (signers, recipients, keys, extra parameters)
+            // n items; the per-item size differs per shape, each arm clamps n to what fits into `cap`
+            let n = if full { cap } else { rng.log_uniform(1, cap.max(2) as u64) as usize };
+            match rng.below(8) {
+                4 => {
+                    // array of n counter signatures in a header
+                    let n = n.min(cap / 5);
+                    let mut o = vec![0xa1, 0x07];
+                    o.extend(head(4, n.max(2) as u64));
+                    for _ in 0..n.max(2) {
+                        o.extend_from_slice(sig0);
+                    }
+                    carry_header(rng, &o)
+                }
+                5 => {
+                    // n critical labels
+                    let n = n.min(cap.saturating_sub(8)).max(1);
+                    let mut o = vec![0xa1, 0x02];
+                    o.extend(head(4, n as u64));
+                    for i in 0..n {
+                        o.push(if i % 2 == 0 { 0x01 } else { 0x60 });
+                    }
+                    carry_header(rng, &o)
+                }
+                6 => {
+                    // KDF context with n supplementary private info strings
+                    let n = n.min(cap.saturating_sub(24)).max(1);
+                    let mut o = head(4, 4 + n as u64);
+                    o.extend([0x01, 0x83, 0xf6, 0xf6, 0xf6, 0x83, 0xf6, 0xf6, 0xf6, 0x82, 0x00, 0x40]);
+                    o.resize(o.len() + n, 0x40);
+                    (o, "CoseKdfContext")
+                }
+                7 => {
+                    // n claims
+                    let n = n.min(cap / 8);
+                    let mut o = head(5, n as u64);
+                    for i in 0..n {
+                        o.extend(head(1, 65536 + i as u64));
+                        o.push(0x00);
+                    }
+                    (o, "ClaimsSet")
+                }
+                0 => {
+                    let n = n.min(cap / 4);
+                    let mut o = vec![0x84, 0x40, 0xa0, 0xf6];
+                    o.extend(head(4, n as u64));
+                    for _ in 0..n {
+                        o.extend_from_slice(sig0);
+                    }
+                    (o, "CoseSign")
+                }
+                1 => {
+                    let n = n.min(cap / 4);
+                    let mut o = vec![0x84, 0x40, 0xa0, 0xf6];
+                    o.extend(head(4, n as u64));
+                    for _ in 0..n {
+                        o.extend_from_slice(rcpt0);
+                    }
+                    (o, "CoseEncrypt")
+                }
+                2 => {
+                    let n = n.min(cap / 3);
+                    let mut o = head(4, n as u64);
+                    for _ in 0..n {
+                        o.extend([0xa1, 0x01, 0x01]);
+                    }
+                    (o, "CoseKeySet")
+                }
+                _ => {
+                    let n = n.min(cap / 6);
+                    let mut o = head(5, n as u64);
+                    for i in 0..n {
+                        o.extend(head(0, 1000 + i as u64));
+                        o.push(0x00);
+                    }
+                    carry_header(rng, &o)
+                }
+            }
+        }
+
 /// One nesting case.  `cap` bounds the size in bytes.
 pub fn gen_nest(rng: &mut Rng, cap: usize) -> Case {
     let kind = rng.below(NEST_KINDS.len());
@@ -382,80 +518,41 @@ pub fn gen_nest(rng: &mut Rng, cap: usize) -> Case {
                 (k, "CoseKdfContext")
             }
         }
-        _ => {
-            // wide rather than deep: many siblings (signers, recipients, keys, extra parameters)
-            let n = rng.log_uniform(1, (cap / 8).max(2) as u64) as usize;
-            match rng.below(8) {
-                4 => {
-                    // array of n counter signatures in a header
-                    let n = n.min(cap / 5);
-                    let mut o = vec![0xa1, 0x07];
-                    o.extend(head(4, n.max(2) as u64));
-                    for _ in 0..n.max(2) {
-                        o.extend_from_slice(sig0);
+        16 => {
+            // zig-zag through the counter-signature cycle: alternate / mix the unprotected and the
+            // protected-bstr hop (each bstr hop gives the CBOR parser a fresh recursion budget)
+            let d = depth(rng, 10);
+            let pat = rng.below(5);
+            let block = rng.range(1, 120);
+            let hops: Vec<u8> = (0..d)
+                .map(|i| match pat {
+                    0 => (i % 2) as u8,
+                    1 => ((i + 1) % 2) as u8,
+                    2 => rng.below(4) as u8,
+                    3 => {
+                        if i % (block + 1) == block {
+                            1
+                        } else {
+                            0
+                        }
                     }
-                    carry_header(rng, &o)
-                }
-                5 => {
-                    // n critical labels
-                    let mut o = vec![0xa1, 0x02];
-                    o.extend(head(4, n as u64));
-                    for i in 0..n {
-                        o.push(if i % 2 == 0 { 0x01 } else { 0x60 });
+                    _ => {
+                        if i % (block + 1) == block {
+                            3
+                        } else {
+                            2
+                        }
                     }
-                    carry_header(rng, &o)
-                }
-                6 => {
-                    // KDF context with n supplementary private info strings
-                    let mut o = head(4, 4 + n as u64);
-                    o.extend([0x01, 0x83, 0xf6, 0xf6, 0xf6, 0x83, 0xf6, 0xf6, 0xf6, 0x82, 0x00, 0x40]);
-                    o.resize(o.len() + n, 0x40);
-                    (o, "CoseKdfContext")
-                }
-                7 => {
-                    // n claims
-                    let n = n.min(cap / 8);
-                    let mut o = head(5, n as u64);
-                    for i in 0..n {
-                        o.extend(head(1, 65536 + i as u64));
-                        o.push(0x00);
-                    }
-                    (o, "ClaimsSet")
-                }
-                0 => {
-                    let mut o = vec![0x84, 0x40, 0xa0, 0xf6];
-                    o.extend(head(4, n as u64));
-                    for _ in 0..n {
-                        o.extend_from_slice(sig0);
-                    }
-                    (o, "CoseSign")
-                }
-                1 => {
-                    let mut o = vec![0x84, 0x40, 0xa0, 0xf6];
-                    o.extend(head(4, n as u64));
-                    for _ in 0..n {
-                        o.extend_from_slice(rcpt0);
-                    }
-                    (o, "CoseEncrypt")
-                }
-                2 => {
-                    let mut o = head(4, n as u64);
-                    for _ in 0..n {
-                        o.extend([0xa1, 0x01, 0x01]);
-                    }
-                    (o, "CoseKeySet")
-                }
-                _ => {
-                    let n = n.min(cap / 6);
-                    let mut o = head(5, n as u64);
-                    for i in 0..n {
-                        o.extend(head(0, 1000 + i as u64));
-                        o.push(0x00);
-                    }
-                    carry_header(rng, &o)
-                }
+                })
+                .collect();
+            let sig = nest_zigzag(&hops, sig0);
+            if rng.bool() {
+                (sig, "CoseSignature")
+            } else {
+                carry_header(rng, &hdr_with_countersig(&sig))
             }
         }
+        _ => gen_wide(rng, cap, false),
     };
     Case { bytes, faults: vec![NEST_KINDS[kind].to_string()], base_type: ty.to_string(), depth: Some(drawn.get()) }
 }
